@@ -26,7 +26,7 @@ func init() {
 			"memory is runtime.MemStats.TotalAlloc in a single goroutine (deterministic), not a timing oracle",
 		},
 		Budget:    map[string]time.Duration{"quick": 100 * time.Second, "thorough": 20 * time.Minute},
-		Bound:     map[string]string{"quick": "complete product, <= 3 fragments", "thorough": "complete product, <= 4 fragments, L adds 65535/65536"},
+		Bound:     map[string]string{"quick": "complete product, <= 3 fragments", "thorough": "complete product, <= 4 fragments (<= 2 for L = 65535/65536, which thorough adds)"},
 		Scenarios: c06Scenarios,
 	})
 }
@@ -44,6 +44,10 @@ func c06Scenarios(tier string) []*explore.Scenario {
 			for _, deflate := range []bool{false, true} {
 				for h1 := 0; h1 < 7; h1++ {
 					L, readerIsServer, deflate, h1 := L, readerIsServer, deflate, h1
+					maxFrags := maxFrags
+					if L >= 65535 {
+						maxFrags = 2 // 64 KiB payloads: the length-form boundary matters, not the composition
+					}
 					scs = append(scs, &explore.Scenario{
 						Name:  fmt.Sprintf("c06/L=%d/reader=%s/deflate=%v/h1=%d", L, roleName(readerIsServer), deflate, h1),
 						Bound: 1,
@@ -302,10 +306,18 @@ func diffs(cuts []int) []int {
 
 func c06Memory(x *explore.Ctx, readerIsServer bool) {
 	masked := readerIsServer
-	limit := []int64{1000, 0}[x.Pick(2, "limit")]
+	li := x.Pick(3, "limit")
+	limit := []int64{1000, 0, 1 << 40}[li]
 	prog := x.Pick(2, "readprog")
 	var deltas []uint64
-	for _, claim := range []uint64{1 << 20, 1 << 40, 1 << 62} {
+	claims := []uint64{1 << 20, 1 << 40, 1 << 62}
+	if li > 0 {
+		// the claimed length is within the limit (or there is none): the frame is accepted and
+		// whatever was actually sent is delivered; memory must still follow the bytes received
+		// (claims are kept below 256 MiB so that a violating tree cannot exhaust the machine)
+		claims = []uint64{513, 1 << 16, 1 << 20, 1 << 24, 1 << 27}
+	}
+	for _, claim := range claims {
 		f := wsref.Frame{Fin: true, Opcode: wsref.OpBinary, Masked: masked, Key: maskKeys[3], LenForm: 64, ClaimLen: claim, Payload: Pattern(0, 10)}
 		stream := wsref.Encode(f)
 		var d uint64
@@ -347,5 +359,5 @@ func c06Memory(x *explore.Ctx, readerIsServer bool) {
 			mx = d
 		}
 	}
-	x.Check(mx-mn < 16<<10 && mx < 64<<10, "C06:memory-depends-on-claimed-length", "bytes allocated while receiving a frame claiming 2^20 / 2^40 / 2^62 bytes (10 actually sent): %v", deltas)
+	x.Check(mx-mn < 16<<10 && mx < 64<<10, "C06:memory-depends-on-claimed-length", "bytes allocated while receiving frames claiming %v bytes (10 actually sent each, read limit %d): %v", claims, limit, deltas)
 }
